@@ -14,6 +14,7 @@ import sys
 import tokenize
 
 V = os.path.dirname(os.path.dirname(os.path.abspath(__file__)))
+TAG = os.environ.get("MUT_TAG", "")          # batch tag: plan<TAG>.json / results<TAG>.tsv
 SRC = "perception_eval/perception_eval/"
 FILES = {
     "evaluation/result/object_result.py": ["C01", "C02", "C11", "C03"],
@@ -117,7 +118,7 @@ def plan(n_per_file, seed):
             if k >= n_per_file:
                 break
     os.makedirs(os.path.join(V, "out", "mutants"), exist_ok=True)
-    json.dump(muts, open(os.path.join(V, "out", "mutants", "plan.json"), "w"), indent=1)
+    json.dump(muts, open(os.path.join(V, "out", "mutants", "plan%s.json" % TAG), "w"), indent=1)
     print(len(muts), "mutants planned")
 
 
@@ -135,8 +136,8 @@ def revert(wt):
 
 
 def run(worker, nworkers, wt):
-    muts = json.load(open(os.path.join(V, "out", "mutants", "plan.json")))
-    res_path = os.path.join(V, "out", "mutants", "results.tsv")
+    muts = json.load(open(os.path.join(V, "out", "mutants", "plan%s.json" % TAG)))
+    res_path = os.path.join(V, "out", "mutants", "results%s.tsv" % TAG)
     done = set()
     if os.path.exists(res_path):
         done = {l.split("\t")[0] for l in open(res_path)}
@@ -167,9 +168,9 @@ def run(worker, nworkers, wt):
 
 
 def suite(wt):
-    muts = {m["id"]: m for m in json.load(open(os.path.join(V, "out", "mutants", "plan.json")))}
-    res = [l.rstrip("\n").split("\t") for l in open(os.path.join(V, "out", "mutants", "results.tsv"))]
-    outp = os.path.join(V, "out", "mutants", "results_suite.tsv")
+    muts = {m["id"]: m for m in json.load(open(os.path.join(V, "out", "mutants", "plan%s.json" % TAG)))}
+    res = [l.rstrip("\n").split("\t") for l in open(os.path.join(V, "out", "mutants", "results%s.tsv" % TAG))]
+    outp = os.path.join(V, "out", "mutants", "results_suite%s.tsv" % TAG)
     done = {l.split("\t")[0] for l in open(outp)} if os.path.exists(outp) else set()
     for r in res:
         if r[4] != "undetected" or r[0] in done:
